@@ -28,6 +28,7 @@ contract(
     pre=["MAX_STR_INT == 0 or MAX_STR_INT >= 640"],
     post=["implies(isinstance(val, (int, float)), result is val or result == val)"],
     raises={"LiquidTypeError": None, "LiquidValueError": None},
+    returns=Union(Int, Float, PosInf, NegInf, NaN),     # a number: finite or not
 )
 
 contract(
